@@ -161,7 +161,7 @@ P("C09", module="AJ.Props.C09All", extra=[("AJ.Props.C09", ["C09"]), ("AJ.Props.
                        S.MpDeSuite(cfg={"USE_LONG_LONG": 0}, n=800 if tier == "quick" else 40000)],
   partial=["value of non-minimal encodings as a theorem"])
 
-P("C10", module="AJ.Props.C10All", extra=[("AJ.Props.C10", ["C10"]), ("AJ.Props.C10Class", ["C10"]), ("AJ.Props.C01Doc", ["C10"])], level_text="Theorems C10.accepts_iff / ok_iff_dialect: for every configuration (comments, NaN, Infinity, unicode decoding on or off), nesting limit and byte string, the deserializer model "
+P("C10", module="AJ.Props.C10All", extra=[("AJ.Props.C10", ["C10"]), ("AJ.Props.C10Class", ["C10"]), ("AJ.Props.C01Doc", ["C10"]), ("AJ.Props.C10Gen", ["C10"])], level_text="C10.unquoted_class_is_source / number_class_is_source_* / space_class_is_source / quote_class_is_source: the character classes of the model are exactly the tables obtained on every run by calling the private predicates of the compiled JsonDeserializer for all 256 bytes in three configurations (translator tie). Theorems C10.accepts_iff / ok_iff_dialect: for every configuration (comments, NaN, Infinity, unicode decoding on or off), nesting limit and byte string, the deserializer model "
   "returns Ok with value v exactly when the text is `white space/comments, one value of the documented dialect denoting v, then anything` (declarative grammar lean/AJ/Spec/Dialect.lean: single and double "
   "quotes, unquoted keys, lenient numbers, NaN/Infinity when enabled, comments when enabled, raw control bytes in strings); C10.sound and C10.complete are the two directions; "
   "C10.unclosed_refused / unclosed_never_ok: an unclosed string, array or object is never Ok; C10.empty_iff: EmptyInput exactly for inputs that are only white space/comments; C10.disabled_*: the "
@@ -176,7 +176,7 @@ P("C10", module="AJ.Props.C10All", extra=[("AJ.Props.C10", ["C10"]), ("AJ.Props.
   suites=lambda tier: [S.JsonAnySuite(cfg=DEF), S.JsonAnySuite(cfg=CFG_ALL, n=6000 if tier == "quick" else 300000), S.JsonAnySuite(cfg=CFG_NOUNI, n=3000 if tier == "quick" else 100000)],
   partial=["finality of InvalidInput for Dangling texts other than a lone sign"])
 
-P("C11", module="AJ.Props.C11All", extra=[("AJ.Props.C11", ["C11"]), ("AJ.Props.C11Full", ["C11"]), ("AJ.Props.C11Mp", ["C11"]), ("AJ.Props.C11Mem", ["C11"]), ("AJ.Props.C11Doc", ["C11"]), ("AJ.Props.C11Slot", ["C11"]), ("AJ.Props.C11MpSlot", ["C11"]), ("AJ.Props.C11MpDoc", ["C11"])],
+P("C11", module="AJ.Props.C11All", extra=[("AJ.Props.C11", ["C11"]), ("AJ.Props.C11Full", ["C11"]), ("AJ.Props.C11Mp", ["C11"]), ("AJ.Props.C11Mem", ["C11"]), ("AJ.Props.C11Doc", ["C11"]), ("AJ.Props.C11Slot", ["C11"]), ("AJ.Props.C11MpSlot", ["C11"]), ("AJ.Props.C11MpDoc", ["C11"]), ("AJ.Props.C11MemRun", ["C11"])],
   level_text="Theorem C11.json_projection_all_inputs: for every configuration, nesting limit, filter and input on which the unfiltered run returns Ok, the filtered run returns Ok, the "
   "projection (lean/AJ/Spec/Filter.lean: recursive, `*` wildcard, first array element, false removes, null falls back to `*`) of the unfiltered document, and the same number of bytes consumed - "
   "repeated keys, dialect extensions and trailing bytes included; C11.skip_and_filter_simulate_parse: skipping a value leaves the reader in literally the same state as parsing it; "
@@ -186,7 +186,9 @@ P("C11", module="AJ.Props.C11All", extra=[("AJ.Props.C11", ["C11"]), ("AJ.Props.
   "C11.filtered_slot_level_refines (the filtered slot-level deserializer refines the value-level one for every filter, allocator schedule and prior document), C11.filtered_document_is_projection "
   "(the document left reads back as the projection of the document the unfiltered run leaves), skipped_values_do_not_touch_document (a filter allowing nothing makes no allocator call); memory: "
   "C11.projected_strings_subset / projected_string_bytes_le / projected_tree_slots_le / projected_live_slots_le - a document reading back as the projection of another stores a subset of its strings, no more "
-  "string bytes, tree slots or live slots. Pairs (input, filter) are "
+  "string bytes, tree slots or live slots; C11.filtered_run_holds_no_more: for EVERY input, filter, configuration and pair of starting documents, if the unfiltered slot-level run answers Ok and the filtered run "
+  "met no allocation failure, the document the filtered run leaves stores a subset of the strings of the unfiltered one, no more string bytes, no more string nodes, no more allocator bytes for strings, "
+  "no more live slots (run_slots_eq_value: live slots = slotsOf(value) exactly). Pairs (input, filter) are "
   "run through the real library, compared with the model and with the projection of the unfiltered result computed independently; memory requested by both runs is compared.",
   level_note="the memory clause as stated (total requested) is false on the implementation (two known findings); what is proved is the comparison of what the two documents HOLD (strings, slots), "
   "and the requests themselves are tied to the slot-level model by the allocator log",
@@ -238,7 +240,7 @@ P("C16", module="AJ.Props.C16All", extra=[("AJ.Props.C01", ["C16"]), ("AJ.Props.
   suites=lambda tier: [S.StreamSuite(cfg=DEF), S.StreamSuite(cfg=CFG_ALL, n=800 if tier == "quick" else 60000), S.FilterSuite(cfg={"USE_DOUBLE": 0}, n=1500 if tier == "quick" else 60000)],
   partial=["reader chunking is a property of the real readers (correspondence)"])
 
-P("C17", level_text="Theorems (for every code point / byte / byte string): Utf8::encodeCodepoint is UTF-8, decodeHex is right on every hex digit in both cases, surrogate recombination, "
+P("C17", module="AJ.Props.C17All", extra=[("AJ.Props.C17", ["C17"]), ("AJ.Props.C10Gen", ["C17"])], level_text="C17.hex_digit_is_source: the model's decodeHex agrees for all 256 bytes with the table regenerated on every run by calling the compiled JsonDeserializer::decodeHex. Theorems (for every code point / byte / byte string): Utf8::encodeCodepoint is UTF-8, decodeHex is right on every hex digit in both cases, surrogate recombination, "
   "\\uXXXX and surrogate pairs decode to UTF-8 at any position of a string (and key), whatever serializeJson writes for a byte string deserializeJson reads back identically, "
   "and bytes other than the eight special ones are emitted verbatim. Tables are regenerated from /repo. Exhaustive differential run over all code units, pairs, bytes and byte pairs.",
   level_note="Lean kernel; model validated exhaustively on this domain",
@@ -301,7 +303,10 @@ P("C05", module="AJ.Props.C05All", extra=[("AJ.Props.C05", ["C05"]), ("AJ.Props.
   suites=lambda tier: [S.FaultSuite(cfg=G["default"]), S.FaultSuite(cfg=G["tiny1"], nh=120 if tier == "quick" else 3000), S.FaultSuite(cfg=G["tiny2"], nh=80 if tier == "quick" else 3000),
                        S.DeserFaultSuite(cfg=G["default"]), S.DeserFaultSuite(cfg=G["tiny2"], n=300 if tier == "quick" else 20000),
                        S.JsonDocSuite(cfg=DEF, n=1500 if tier == "quick" else 150000), S.MpDocSuite(cfg=DEF, n=1500 if tier == "quick" else 150000), S.DeserShareSuite(cfg=G["tiny2"]), S.FlagTravelSuite(cfg=G["tiny2"]), S.FlagTravelSuite(cfg=DEF),
-                       S.JsonDocFSuite(cfg=DEF, n=600 if tier == "quick" else 60000), S.MpDocFSuite(cfg=DEF, n=600 if tier == "quick" else 60000)] +
+                       S.JsonDocFSuite(cfg=DEF, n=600 if tier == "quick" else 60000), S.MpDocFSuite(cfg=DEF, n=600 if tier == "quick" else 60000),
+                       # small pools: a member's key slot and value slot on either side of a pool boundary, the pool allocation failing
+                       S.JsonDocSuite(cfg=G["tiny2"], n=400 if tier == "quick" else 40000), S.MpDocSuite(cfg=G["tiny2"], n=400 if tier == "quick" else 40000),
+                       S.JsonDocFSuite(cfg=G["tiny2"], n=300 if tier == "quick" else 30000), S.MpDocFSuite(cfg=G["tiny1"], n=300 if tier == "quick" else 30000)] +
   ([S.FaultSuite(cfg=G[g], nh=2000) for g in ("id1", "tiny2", "id1c10")] if tier == "thorough" else []),
   partial=["allocation failures inside the compiled binary are exercised by schedules, not enumerated exhaustively; the theorems are about the slot-level models tied by the allocator log"])
 
